@@ -1,6 +1,8 @@
 //! Property lanes and what they share: drawing configurations (swarm style)
 //! and running one threaded operation under one configuration.
 
+pub mod c11;
+pub mod c12;
 pub mod c17;
 
 use crate::core::{Stats, Tier, Violation};
